@@ -24,4 +24,32 @@ CANARIES = [
          edits=[(OUTB, 'Timeout::new(inner, self.default_timeout)', 'Timeout::new(inner, None)')]),
     dict(id='t-duration-to-timeout-wrap', unit=U, what='large durations wrap instead of saturating', expect=['duration_to_timeout::saturating_nanos', 'duration_to_timeout::body'],
          edits=[(MOD, 'let nanoseconds: u64 = duration.as_nanos().try_into().unwrap_or(u64::MAX);', 'let nanoseconds: u64 = duration.as_nanos() as u64;')]),
+    dict(id='w-outbound-uses-inbound-default', unit=U, what='the outbound timeout layer of a network is armed with the inbound default', expect=['Builder::start::outbound_layer::timeout_outermost_with_configured_default'],
+         edits=[('crates/anemo/src/network/mod.rs', """                .layer(timeout::outbound::TimeoutLayer::new(
+                    config.outbound_request_timeout(),
+                ));""", """                .layer(timeout::outbound::TimeoutLayer::new(
+                    config.inbound_request_timeout(),
+                ));""")]),
+    dict(id='w-outbound-no-default', unit=U, what='the outbound timeout layer of a network gets no default', expect=['Builder::start::outbound_layer::timeout_outermost_with_configured_default'],
+         edits=[('crates/anemo/src/network/mod.rs', """                .layer(timeout::outbound::TimeoutLayer::new(
+                    config.outbound_request_timeout(),
+                ));""", """                .layer(timeout::outbound::TimeoutLayer::new(
+                    None,
+                ));""")]),
+    dict(id='w-user-layer-replaces-timeout', unit=U, what='a user-supplied outbound layer replaces the timeout layer', expect=['Builder::start::outbound_layer::'],
+         edits=[('crates/anemo/src/network/mod.rs', 'BoxLayer::new(builder.layer(layer).into_inner())', 'BoxLayer::new(ServiceBuilder::new().layer(layer).into_inner())')]),
+    dict(id='w-inbound-no-timeout-layer', unit=U, what='the inbound service stack has no timeout layer', expect=['Builder::start::inbound_service::timeout_outermost_with_configured_default'],
+         edits=[('crates/anemo/src/network/mod.rs', """                .layer(timeout::inbound::TimeoutLayer::new(
+                    config.inbound_request_timeout(),
+                ))
+""", "")]),
+    dict(id='w-inbound-timeout-innermost', unit=U, what='the inbound timeout layer sits inside the extension layer', expect=['Builder::start::inbound_service::timeout_outermost_with_configured_default'],
+         edits=[('crates/anemo/src/network/mod.rs', """                .layer(timeout::inbound::TimeoutLayer::new(
+                    config.inbound_request_timeout(),
+                ))
+                // Supply a weak reference to the network via an Extension
+                .layer(AddExtensionLayer::new(NetworkRef(weak.clone())))""", """                .layer(AddExtensionLayer::new(NetworkRef(weak.clone())))
+                .layer(timeout::inbound::TimeoutLayer::new(
+                    config.inbound_request_timeout(),
+                ))""")]),
 ]
